@@ -25,4 +25,15 @@ def ofModel : Parsed α ε → ParsedR α ε
   | .fallthrough => .fallthrough
 
 end ParsedR
+
+namespace ParsedExt
+variable {α ε ε' : Type}
+
+/-- Contract of std's `Result::map_err`. -/
+def resultMapErr (r : Except ε α) (f : ε → ε') : Except ε' α :=
+  match r with
+  | .ok v => .ok v
+  | .error e => .error (f e)
+
+end ParsedExt
 end Flussab
